@@ -116,6 +116,39 @@ def blank_family() -> list[list[tuple]]:
     return progs
 
 
+def ternary_family() -> list[list[tuple]]:
+    """Inline conditions `a if c [else b] [|| tail filters]` in every position that takes a
+    filtered expression x condition true / false / undefined / a truthy variable x with and
+    without else x tail filters none / default / append / size / two of them (complete, not
+    sampled): tail filters apply to whichever branch was taken, also to the nil of a false
+    condition without else."""
+    T, F = ("lit", True), ("lit", False)
+    conds = [T, F, ("path", "nope", []), ("path", "y", []), ("not", ("path", "y", []))]
+    tails = [[], [("default", [("lit", "x")])], [("append", [("lit", "z")])], [("size", [])],
+             [("default", [("lit", "x")]), ("upcase", [])]]
+    progs: list[list[tuple]] = []
+    k = 0
+    for cond in conds:
+        for alt in (None, ("lit", "e"), ("filter", ("path", "nope", []), "default", [("lit", "d")])):
+            for tl in tails:
+                for pos in ("output", "echo", "assign", "liquid"):
+                    k += 1
+                    left: tuple = ("lit", "a") if k % 3 else ("path", "y", [])
+                    if k % 2:
+                        left = ("filter", left, "append", [("lit", "b")])
+                    e: tuple = ("tern", cond, left, alt)
+                    for name, args in tl:
+                        e = ("filter", e, name, args)
+                    if pos == "assign":
+                        use = [("assign", "q", e), ("output", ("path", "q", []))]
+                    elif pos == "liquid":
+                        use = [("liquid", clf.to_lines_ast([("echo", e)]))]
+                    else:
+                        use = [(pos, e)]
+                    progs.append([("assign", "y", ("lit", 1)), ("content", "[")] + use + [("content", "]")])
+    return progs
+
+
 def features(n: Any, acc: set[str]) -> None:
     if isinstance(n, tuple) and n and isinstance(n[0], str):
         acc.add(n[0] if n[0] != "filter" else "filter:" + n[2])
@@ -145,12 +178,13 @@ def main(chk: C.Check, build: C.Build) -> None:
     cfgs: dict[tuple, int] = {}
     nmarked = 0
     pyexc: list[dict[str, Any]] = []
-    family = blank_family()
-    for pi in range(nprog + 2 * len(family)):
+    # the complete blank-flag family, with suppression on and off, and the complete family of
+    # inline conditions with tail filters
+    family = [(p, sup) for p in blank_family() for sup in (True, False)] + [(p, True) for p in ternary_family()]
+    for pi in range(nprog + len(family)):
         if pi >= nprog:
-            # the complete blank-flag family, with suppression on and off
-            prog = clf.canon({"main": family[(pi - nprog) // 2], "loader": {}})
-            suppress, trim, shorthand = (pi - nprog) % 2 == 0, "+", False
+            prog = clf.canon({"main": family[pi - nprog][0], "loader": {}})
+            suppress, trim, shorthand = family[pi - nprog][1], "+", False
         else:
             prog = clf.canon(clf.gen_program(r, depth=3 if not thorough else r.choice([3, 4])))
             suppress = r.random() < 0.7
@@ -240,7 +274,10 @@ def main(chk: C.Check, build: C.Build) -> None:
                  "render (with/for/as/args), include (with/as/args), macro/call; paths, ranges, comparisons, and/or/not, "
                  "12 filters, ternaries) with up to 3 partials, nesting <= 3 (4 in thorough), printed with a random "
                  "layout and, for 60% of the programs, a random whitespace-control marker (none, -, ~, +) on each side of every tag, output, comment and raw tag, each rendered with 2 generated data sets x suppress_blank_control_flow_blocks in {on,off} x "
-                 "default_trim in {+,-,~} x shorthand_indexes in {on,off}; "
+                 "default_trim in {+,-,~} x shorthand_indexes in {on,off}; plus two complete (not sampled) families in every run: "
+                 "the blank-flag family (8 wrappers x 11 multi-branch constructs x blank/printing branches, suppression on and off) and the "
+                 "inline-condition family (a if c [else b] [|| tail filters]: 5 conditions x 3 alternatives x 5 tail-filter lists x 4 positions); "
+                 "case blocks with no when and ternaries with tail filters are also generated at random; "
                  "non-trivial = distinct (program, data) whose render succeeded with non-empty output and whose program uses >= 4 "
                  "different constructs"),
         "samples": samples,
